@@ -47,7 +47,7 @@ template <integral Int, from_integer_options Options = from_integer_options{}>
 
     bool isNegative = false;
     if constexpr (is_signed_v<Int>) {
-        if (num < 0 and base == 10) {
+        if (num < 0) {
             isNegative = true;
             str[i++]   = '-';
         }
